@@ -7,6 +7,9 @@ C20 line-protocol driver.   (`.` = empty/absent, `=`+payload = present, byte str
   flt  <filter> <key> <kind> <val> <tables>      one field filter on one field
   site <c> <E> <hostclass> <rw> <route> <status> <remote> <qs> <Tin> <Tadd> <Tset> <Tup>
        <Tmid> <Tout> <Tupo> <Tresp>              one request through a provisioned server
+  fenc <nwith> <cfg> <tree> <tables>             one log entry through a provisioned FilterEncoder
+                                                 cfg = `.` | path@filter+path@filter ; tree = `.` | tokens joined by `/`:
+                                                 o:<key> … c (object), l:<key>:<kind>:<val> (leaf); keys ascending per object
 
 H = `.` | `k:v,v;k:.;…` (keys strictly ascending).  split = `.` | `ip:port`.
 filter = delete | replace:<v> | hash | ipmask:<v4>:<v6> | query:<acts> | cookie:<acts> | regexp:<pat>:<repl> | rename:<n>
@@ -14,6 +17,7 @@ acts = `.` | `t,name,value;…`, t ∈ r h d.   kind/val = s <hex> | a <L> | o <
 tables = `.` | rows joined by `;` (see `Tables`).
 -/
 import CaddyModel.C20.Model
+import CaddyModel.C20.FEnc
 
 namespace CaddyModel.C20
 
@@ -282,6 +286,87 @@ def parseRoute (s : String) : Option Route :=
   else if s == "fcg" then some .fcgiErr
   else none
 
+/-! filter-encoder trees -/
+
+def parseCfg (s : String) : Option FCfg :=
+  if s == "." then some [] else
+  (s.splitOn "+").mapM fun e =>
+    match e.splitOn "@" with
+    | [p, f] => do pure ((← Hex.decode p), (← parseFilter f))
+    | _ => none
+
+/-- stack of open objects: (key, children so far, reversed) -/
+def treeStep (st : Option (List (Bytes × List Node))) (tok : String) : Option (List (Bytes × List Node)) :=
+  match st with
+  | none => none
+  | some stack =>
+    match tok.splitOn ":" with
+    | ["o", k] => do pure ((← Hex.decode k, []) :: stack)
+    | ["c"] =>
+      match stack with
+      | (k, kids) :: (pk, pkids) :: rest => some ((pk, Node.obj k kids.reverse :: pkids) :: rest)
+      | _ => none
+    | ["l", k, kind, v] =>
+      match stack with
+      | (pk, pkids) :: rest => do pure ((pk, Node.leaf (← Hex.decode k) (← parseVal kind v) :: pkids) :: rest)
+      | [] => none
+    | _ => none
+
+def nodeKey : Node → Bytes
+  | .leaf k _ => k
+  | .obj k _ => k
+
+mutual
+def keysSortedNode : Node → Bool
+  | .leaf _ _ => true
+  | .obj _ kids => strictlySorted (kids.map nodeKey) && keysSortedList kids
+def keysSortedList : List Node → Bool
+  | [] => true
+  | n :: r => keysSortedNode n && keysSortedList r
+end
+
+def parseTree (s : String) : Option (List Node) :=
+  if s == "." then some [] else
+  match (s.splitOn "/").foldl treeStep (some [([], [])]) with
+  | some [(_, kids)] =>
+    if strictlySorted (kids.reverse.map nodeKey) && keysSortedList kids then some kids.reverse else none
+  | _ => none
+
+def insertNode (n : Node) : List Node → List Node
+  | [] => [n]
+  | m :: r => if bytesLt (nodeKey n) (nodeKey m) then n :: m :: r else m :: insertNode n r
+
+def sortNodes (l : List Node) : List Node := l.foldl (fun acc n => insertNode n acc) []
+
+def showVal : FVal → String
+  | .str s => "s:" ++ Hex.encode s
+  | .arr l => "a:" ++ showList l
+  | .other t => "o:" ++ toString t
+  | .skip => "skip"
+
+mutual
+def showNode : Node → List String
+  | .leaf k v => ["l:" ++ Hex.encode k ++ ":" ++ showVal v]
+  | .obj k kids => ["o:" ++ Hex.encode k] ++ showNodes kids ++ ["c"]
+def showNodes : List Node → List String
+  | [] => []
+  | n :: r => showNode n ++ showNodes r
+end
+
+mutual
+def sortDeepNode : Node → Node
+  | .leaf k v => .leaf k v
+  | .obj k kids => .obj k (sortNodes (sortDeepList kids))
+def sortDeepList : List Node → List Node
+  | [] => []
+  | n :: r => sortDeepNode n :: sortDeepList r
+end
+
+def showTree (l : List Node) : String :=
+  match showNodes (sortNodes (sortDeepList l)) with
+  | [] => "."
+  | toks => "/".intercalate toks
+
 def handle : List String → String
   | ["hdr", c, h] =>
     match parseBool c, parseHdr h with
@@ -296,6 +381,10 @@ def handle : List String → String
   | ["flt", filter, key, kind, val, tables] =>
     match parseFilter filter, Hex.decode key, parseVal kind val, parseTables tables with
     | some f, some k, some v, some t => "ok " ++ showField (applyFilter (oraclesOf t) f ⟨k, v⟩)
+    | _, _, _, _ => "bad-op"
+  | ["fenc", nwith, cfg, tree, tables] =>
+    match nwith.toNat?, parseCfg cfg, parseTree tree, parseTables tables with
+    | some _, some cfg, some tree, some t => "ok " ++ showTree (filterEncode (oraclesOf t) cfg tree)
     | _, _, _, _ => "bad-op"
   | ["site", c, e, hc, rw, route, status, remote, qs, tin, tadd, tset, tup, tmid, tout, tupo, tresp] =>
     match parseBool c, hostClass hc, parseRoute route, parseHdr tin, parseHdr tmid, parseHdr tout,
@@ -315,8 +404,10 @@ namespace CaddyModel.C20
 /-- counter-example lines replayed on the implementation on every run (see Witness.lean):
     1 hash on an integer field (passed through)                             hash_full_fails
     2 cookie filter on a string field (passed through)                      hash_full_fails
+    3 filter encoder: `request → rename rq` switches `request>uri → delete` off   fenc_object_filter_full_fails
     (the former query / ip_mask / trailer witnesses are regression cases in corpus/C20/ now) -/
 def witnessLines : List String := [
   "C20 flt hash 737461747573 o 0 .",
-  "C20 flt cookie:d,736964,- 636f6f6b6965 s 7369643d3031323334353637383961626364656630313233343536373839616263646566 ."]
+  "C20 flt cookie:d,736964,- 636f6f6b6965 s 7369643d3031323334353637383961626364656630313233343536373839616263646566 .",
+  "C20 fenc 1 72657175657374@rename:7271+726571756573743e757269@delete o:72657175657374/l:757269:s:2f783f746f6b656e3d3031323334353637383961626364656630313233343536373839616263646566/c ."]
 end CaddyModel.C20
